@@ -58,7 +58,16 @@ def strategy(tier):
                 spread = {"Normal": 1.0, "Gamma": 2.0, "NegBinom": 1.0}[kind]
         wform = draw(st.sampled_from(["none", "none", "array"])) if kind in ("Square", "Normal") else "none"
         w = [[draw(S.fl(0.1, 3.0, 3)) for _ in range(p)] for _ in range(n)] if wform == "array" else None
+        # whole-number spreads / weights handed over as an integer typed array (sigma = np.array([1, 2, 2, 3]))
+        spread_dtype = draw(st.sampled_from(["float", "float", "int"]))
+        if spread_dtype == "int" and isinstance(spread, list):
+            spread = [[float(max(1, round(v))) for v in row] for row in spread]
+        elif spread_dtype == "int" and isinstance(spread, float):
+            spread = float(max(1, round(spread)))
+        if spread_dtype == "int" and w is not None:
+            w = [[float(max(1, round(v))) for v in row] for row in w]
         return {"kind": kind, "layout": layout, "y": y, "yhat": yhat, "spread": spread, "weights": w, "y_dtype": y_dtype,
+                "spread_dtype": spread_dtype,
                 "spread_none": sform == "explicit-none", "weights_none": draw(st.booleans())}
     return case()
 
@@ -89,8 +98,13 @@ def oracle(case, rec):
               "weights:" + ("array" if w is not None else "none"))
     cls = getattr(loss_type, kind)
     kw = {}
+    int_sp = case.get("spread_dtype") == "int"
     if kind in ("Normal", "Gamma", "NegBinom") and spread is not None:
-        kw[{"Normal": "sigma", "Gamma": "shape", "NegBinom": "k"}[kind]] = sp_arr if sp_arr is not None else spread
+        sp_val = sp_arr if sp_arr is not None else spread
+        if int_sp:
+            sp_val = np.rint(sp_arr).astype(np.int64) if sp_arr is not None else int(round(spread))
+            rec.label("spread:int-typed")
+        kw[{"Normal": "sigma", "Gamma": "shape", "NegBinom": "k"}[kind]] = sp_val
     elif kind in ("Normal", "Gamma", "NegBinom") and case.get("spread_none"):
         # the optional spread passed explicitly as None must mean the documented default, exactly like leaving it out
         kw[{"Normal": "sigma", "Gamma": "shape", "NegBinom": "k"}[kind]] = None
@@ -99,7 +113,11 @@ def oracle(case, rec):
     if case.get("y_dtype") == "int" and np.all(y == np.rint(y)):
         y_arg = np.rint(y).astype(np.int64)
         rec.label("y:int-typed")
-    obj = call(key + "/construct", case, cls, y_arg, w.copy() if w is not None else None, **kw)
+    w_arg = w.copy() if w is not None else None
+    if int_sp and w is not None:
+        w_arg = np.rint(w).astype(np.int64)
+        rec.label("weights:int-typed")
+    obj = call(key + "/construct", case, cls, y_arg, w_arg, **kw)
     default = {"Normal": 1.0, "Gamma": 2.0, "NegBinom": 1.0}.get(kind)
     yf = y.reshape(-1)
     mf = yhat.reshape(-1) if layout != "matrix" else yhat.reshape(-1)
